@@ -26,6 +26,7 @@ package kex
 
 //@ func kex.OAEPSession.SetParameter
 //@   params s xB ownerKey
+//@   local err = UnOp#12 | UnOp#14 | UnOp#4 | UnOp#5 | addr:Alloc#1 | extract1:call:crypto/rsa.DecryptOAEP#1 | extract2:call:kex.oaepSymmetricKey#1
 //@   props C10(sweep)
 //@   sweep bounds,panic,make,nilmem,div
 
